@@ -376,8 +376,8 @@ class Mesh:
         boundaries = {}
 
         for name, data in cell_data.items():
-            subnames = name.split(":")
-            if subnames[0] != "skfem":
+            subnames = name.split(":", 2)
+            if subnames[0] != "skfem" or len(subnames) < 3:
                 continue
             if subnames[1] == "s":
                 subdomains[subnames[2]] = np.nonzero(data[0])[0]
